@@ -63,7 +63,7 @@ def run(tier, seed):
             bad["inter"] = bad["inter"][:-1]
             break
     sb = vh(["replay", "reschain", write_ndjson(os.path.join(wd, "corrupt.ndjson"), [bad])])
-    if not sb["violations"]:
+    if not sb["violations"] and not c.violations:
         raise vlib.ToolError("binding self-check failed: corrupted expectation not detected")
     c.cov["binding_selfcheck_replay"] = "corrupted intersection expectation detected"
 
@@ -82,7 +82,7 @@ def run(tier, seed):
             c.violation(f"trace:{ev.get('ev') if ev else '?'}",
                         f"Trace_ResChain cannot explain line {tr.rejected_at}: {json.dumps(ev)}",
                         {"trace_seed": seed * 1000 + i, "line": tr.rejected_at, "event": ev})
-        if i == 0 and tr.accepted:
+        if i == 0 and tr.accepted and not c.violations:
             def mut(items):
                 for k, it in enumerate(items):
                     if it["ev"] in ("union", "inter", "diff", "from") and it["res"]:
